@@ -26,6 +26,30 @@ func gateCall(name string, ins []tensor.Tensor) (out string) {
 			return "GOChanged"
 		}
 	}
+	// the gate looks at presence and element type only: the same list with every tensor replaced by a
+	// tensor of the same element type and another shape (zero-size ones included) must be judged alike
+	for _, shp := range [][]int{{0}, {2, 0}, {1, 1, 1, 1, 1, 2}} {
+		alt := make([]tensor.Tensor, len(ins))
+		ok := true
+		for i, t := range ins {
+			if t == nil {
+				continue
+			}
+			func() {
+				defer func() {
+					if r := recover(); r != nil {
+						ok = false
+					}
+				}()
+				alt[i] = tensor.New(tensor.Of(t.Dtype()), tensor.WithShape(shp...))
+			}()
+		}
+		if ok {
+			if other := gateOnce(name, alt, 0, false); other != fresh {
+				return "GOChanged"
+			}
+		}
+	}
 	return fresh
 }
 
@@ -211,6 +235,15 @@ func genC15(dir, tier string, seed int64) {
 		probe(in.name + "1")
 		probe(in.name[:len(in.name)-1])
 		probe("ai.onnx." + in.name)
+		probe("." + in.name)
+		probe(in.name + ".")
+		probe(in.name + "." + in.name)
+		probe("com.acme." + in.name)
+		probe(in.name + ":0")
+		probe("x/" + in.name)
+		probe(in.name + "_13")
+		probe(in.name + in.name)
+		probe("\u00a0" + in.name)
 	}
 	for _, n := range []string{"", "Pad", "Gelu", "MaxPool", "AveragePool", "BatchNormalization", "Dropout", "Identity", "Clip", "Exp", "Log", "Sqrt", "Pow", "Neg", "Floor", "Ceil", "Round", "Sum", "Mean", "Max", "Min", "ReduceSum", "ReduceMean", "ReduceProd", "ReduceL1", "ReduceL2", "ArgMin", "Where", "Tile", "Split", "Resize", "Upsample", "TopK", "Range", "OneHot", "NonZero", "LeakyRelu", "Elu", "Selu", "Softplus", "Softsign", "HardSigmoid", "InstanceNormalization", "LRN", "GlobalAveragePool", "GlobalMaxPool", "ConvTranspose", "DepthToSpace", "SpaceToDepth", "ScatterND", "GatherND", "GatherElements", "Einsum", "CumSum", "Erf", "Sign", "IsNaN", "IsInf", "Mod", "BitShift", "If", "Loop", "Scan", "QuantizeLinear", "op", "Operator", "nil", "13"} {
 		probe(n)
